@@ -233,6 +233,30 @@ theorem C05_rx_too_long (fuel : Nat) (h : Handle) (c : Chip) (wf : c.WF) (hl : c
   · cases h; simp_all
   · exact rd_wr_same _ _ _ (by rw [wf.hl]; decide)
 
+/-- the same in implicit-header mode: a configured length beyond the packet buffer -/
+theorem C05_rx_too_long_implicit (fuel : Nat) (h : Handle) (c : Chip) (wf : c.WF) (hl : c.isLora = true)
+    (hm : h.activeModem = Gen.SX127x_MODULATION_LORA) (hexp : h.expected ≠ 0)
+    (hlong : h.expected.toUInt8.toNat > h.packet.length)
+    (hcad : c.lora.rd 0x12 &&& 0x04 = 0) (hcrc : c.lora.rd 0x12 &&& 0x20 = 0) (hrx : c.lora.rd 0x12 &&& 0x40 ≠ 0) :
+    wp (handleInterrupt fuel) h ⟨c, [], []⟩ (fun _ h' s' =>
+      s'.cbs = [] ∧ h' = h ∧
+      s'.chip.lora.rd 0x12 = c.lora.rd 0x12 &&& ~~~ c.lora.rd 0x12 ∧
+      s'.chip.buf = c.buf ∧ s'.chip.shared = c.shared ∧ s'.chip.fsk = c.fsk) := by
+  rw [wp_handleInterrupt_lora _ _ _ _ hm]
+  unfold loraHandleInterrupt loraReadGuard
+  simp only [wp_bind, wp_rread, wp_swrite, wp_getH, show Gen.REGIRQFLAGS = 0x12 from rfl,
+    readN_one _ 0x12 (by decide), show (0x12 % 128) = 0x12 from rfl, peek_lora _ _ hl (show inPage 0x12 = true by decide),
+    be32_single, writeN_one, flag_consts.1, flag_consts.2.1, flag_consts.2.2.1, hcad, hcrc, hrx, ne_eq,
+    not_true_eq_false, not_false_eq_true, ↓reduceIte, write_lora_flags _ _ hl]
+  rw [wp_attempt]
+  unfold loraRxReadPayload
+  simp only [wp_bind, wp_checkModulation, hm, ne_eq, not_true_eq_false, ↓reduceIte, wp_getH, hexp, wp_pure]
+  rw [wp_ite, if_pos hlong, wp_fail]
+  simp only [wp_bind, wp_modH, wp_fail]
+  refine ⟨trivial, ?_, ?_, trivial, trivial, trivial⟩
+  · cases h; simp_all
+  · exact rd_wr_same _ _ _ (by rw [wf.hl]; decide)
+
 /-- a packet flagged with a payload CRC error is never delivered: the handler only acknowledges
     the flags and restarts the hop sequence -/
 theorem C05_crc_error (fuel : Nat) (h : Handle) (c : Chip) (hl : c.isLora = true)
